@@ -46,7 +46,7 @@ class C01(Prop):
                  '(numpy, potentials expanded by attribute name), over enumerated clique hypergraphs, elimination orders and message schedules')
     explanation = ('Bounded tier (labelled bounded, never counted as proved): for every set of <= 4 distinct cliques of size <= 3 on <= 4 attributes '
                    '(cyclic, disconnected, nested, attributes in no clique; attribute order inside cliques, list order, duplicates and the domain order are seeded), '
-                   'attribute sizes 1..3, the real GraphicalModel(domain, cliques, total, elimination_order) is built for elimination orders None, int (randomised greedy, '
+                   'attribute sizes 1..3, and for cycles, chorded cycles, wheels of 3-cliques, ladders, trees and seeded clique sets on 5-6 attributes (96 + 48 cases in quick, 1500 + 160 in thorough), the real GraphicalModel(domain, cliques, total, elimination_order) is built for elimination orders None, int (randomised greedy, '
                    'np.random seeded from the case) and explicit permutations (a seeded sample in quick, every permutation in thorough and in every 3rd quick case); '
                    'log-potentials are given on model.cliques (finite / with -inf cells and slices / magnitudes 1, 50, 2000; totals 0.5, 1, 10, 1e3). '
                    'belief_propagation(potentials) must return for every model clique the marginal of the brute-force joint exp(sum potentials) normalised to total '
@@ -55,7 +55,7 @@ class C01(Prop):
                    'and under replacing the public attribute message_order by other linear extensions of the message-dependency order '
                    '(all of them for junction trees with <= 4 edges in thorough, a seeded sample in quick).')
     rule = ('case = (clique set, domain order, sizes, total, potential regime, list of elimination orders, schedule budget, seed); structures: all sets of <= 4 distinct cliques '
-            '(size <= 3) on 1..4 attributes, plus attribute trees on 5-6 attributes (junction trees with 3-4 edges) and, in thorough, seeded hypergraphs on 5-6 attributes; '
+            '(size <= 3) on 1..4 attributes, plus attribute trees on 5-6 attributes (junction trees with 3-4 edges) and cycles / wheels / ladders / seeded hypergraphs on 5-6 attributes; '
             'non-trivial = at least two attributes of size >= 2 and at least one clique with >= 2 attributes; distinct by the whole case dict')
     trusted_base = ['numpy (explicit joint table, exp/log/sum)', 'python itertools (structure / permutation / linear-extension enumeration)']
     assumptions = ['bounded: only the enumerated structures, sizes 1..3, the listed magnitudes/totals and seeded potentials are decided',
@@ -107,7 +107,7 @@ class C01(Prop):
             r, c = base(attrs, edges, k)
             c['sizes'] = [int(_pick(r, [2, 3, 1], [0.6, 0.25, 0.15])) for _ in range(n)]
             c['orders'] = [None, int(r.randint(1, 4))] + [[attrs[i] for i in r.permutation(n)] for _ in range(2)]
-            # all linear extensions (capped) in thorough; a seeded sample in quick
+            # all linear extensions (<= 720 for 4 tree edges) on the first order mode(s)
             c['sched'] = dict(mode='all', cap=800, on=1) if quick else dict(mode='all', cap=800, on=3)
             tree_cases.append(c)
 
@@ -126,27 +126,46 @@ class C01(Prop):
         perm = rng.permutation(len(small))
         small = [small[i] for i in perm]
 
+        # (3) cyclic / seeded hypergraphs on 5-6 attributes (fill-in on fill-in needs >= 5 attributes): a few in quick, many in thorough
+        big = []
+        for k in range(96 if quick else 1500):
+            n = 5 + k % 2
+            attrs = list(X.NAMES[:n])
+            r0 = np.random.RandomState(rng.randint(2 ** 31 - 1))
+            lab = [attrs[i] for i in r0.permutation(n)]
+            shape = k % 6
+            if shape == 0:
+                cliques = [[lab[i], lab[(i + 1) % n]] for i in range(n)]                                   # n-cycle
+            elif shape == 1:
+                cliques = [[lab[i], lab[(i + 1) % n]] for i in range(n)] + [[lab[0], lab[2]]]              # cycle with a chord
+            elif shape == 2:
+                rim = lab[1:]
+                cliques = [[lab[0], rim[i], rim[(i + 1) % len(rim)]] for i in range(len(rim))]             # wheel of 3-cliques
+            elif shape == 3:
+                cliques = [[lab[i], lab[(i + 1) % n]] for i in range(n)] + [[lab[1], lab[n - 1]], [lab[2], lab[n - 2]]]   # ladder-like
+            else:
+                cliques = X.random_clique_set(r0, attrs, int(r0.randint(3, 7)), 3)
+            r, c = base(attrs, cliques, k)
+            c['sizes'] = [int(_pick(r, [2, 3, 1], [0.7, 0.2, 0.1])) for _ in range(n)]
+            c['orders'] = [None, int(r.randint(1, 4))] + [[attrs[i] for i in r.permutation(n)] for _ in range(5 if quick else 8)]
+            c['sched'] = dict(mode='sample', k=4, on=1) if quick else dict(mode='sample', k=12, on=3)
+            big.append(c)
+
         # interleave so that the most diverse cases come first
-        ti = 0
+        ti = bi = 0
         for i, c in enumerate(small):
             if i % 30 == 0 and ti < len(tree_cases):
                 yield tree_cases[ti]
                 ti += 1
+            if i % 15 == 7 and bi < len(big):
+                yield big[bi]
+                bi += 1
             yield c
         for c in tree_cases[ti:]:
             yield c
+        for c in big[bi:]:
+            yield c
 
-        # (3) thorough: seeded hypergraphs on 5-6 attributes
-        if not quick:
-            for k in range(1500):
-                n = 5 + k % 2
-                attrs = list(X.NAMES[:n])
-                r0 = np.random.RandomState(rng.randint(2 ** 31 - 1))
-                cliques = X.random_clique_set(r0, attrs, int(r0.randint(2, 6)), 3)
-                r, c = base(attrs, cliques, k)
-                c['orders'] = [None, int(r.randint(1, 4))] + [[attrs[i] for i in r.permutation(n)] for _ in range(6)]
-                c['sched'] = dict(mode='sample', k=12, on=3)
-                yield c
 
     def nontrivial(self, case):
         size = dict(zip(case['attrs'], case['sizes']))
